@@ -406,6 +406,17 @@ func JudgeC07(sc *Scenario, tr *Transcript) *Verdict {
 	L, P := o.MaxHead, o.MaxProc
 	for ri := range sc.Replicas {
 		if sc.Replicas[ri].ListFail {
+			// the coordinator could not list this replica's shards: none of them is known to be in sync, so no
+			// request may cut any of them off (the unchanged coordinator sends it no request at all)
+			nn := int32(len(sc.Replicas[ri].Shards))
+			vd.class("replica-whose-listing-fails")
+			if ri < len(tr.Replicas) && nn <= o.Max {
+				for _, r := range tr.Replicas[ri].Scales {
+					if r < nn {
+						vd.add("C07/cuts-shard-in-use/replica-not-listed", "replica %d: its shards could not be listed in this cycle, yet scale %d was requested for it (it has %d shards; all requests: %v)", ri, r, nn, tr.Replicas[ri].Scales)
+					}
+				}
+			}
 			continue
 		}
 		v := NewView(sc, tr, ri)
@@ -414,7 +425,13 @@ func JudgeC07(sc *Scenario, tr *Transcript) *Verdict {
 		expired := 0
 		for s := 0; s < v.N; s++ {
 			sp := &v.Spec.Shards[s]
-			inUse := !v.InSync[s] || len(v.Report[s]) > 0 || len(v.New[s]) > 0 || sp.Idle != "expired" || !o.IdleOn
+			// "near": idle for a little less than max-idle-time when the cycle began; not expired if the cycle
+			// ended in time, otherwise unknown (then it is not counted as in use: the weaker judgement)
+			idleExpired := sp.Idle == "expired" || (sp.Idle == "near" && !tr.NearStillFresh)
+			if sp.Idle == "near" && tr.NearStillFresh && len(sp.Held) == 0 && v.InSync[s] && o.IdleOn {
+				vd.class("shard-idle-for-almost-max-idle-time")
+			}
+			inUse := !v.InSync[s] || len(v.Report[s]) > 0 || len(v.New[s]) > 0 || !idleExpired || !o.IdleOn
 			if len(sp.Held) == 0 && sp.Idle == "expired" && v.InSync[s] {
 				expired++
 				if len(v.New[s]) > 0 {
